@@ -94,6 +94,21 @@ def outcome_items(tier):
                     case = {"g": g, "kinds": ["group"] + ["exp"] * (n - 1), "pars": [False] + [True] * (n - 1), "jobs": n - 1,
                             "fails": {str(i): fk for i in subset}, "git": True, "dirty": False}
                     out.append({"kind": "outcome", "case": case, "bound": 1})
+    # a child of the cond process that is not a task exits (status 0 / 5) while experiments are in flight: its status must not
+    # be attributed to a task (neither direction: a failed execution recorded, a successful one not recorded)
+    for g in rungrid.graphs_upto((1, 2)):
+        n = len(g)
+        for un in (True, 5 << 8):
+            for fails in [{}] + [{str(i): ["exit", 3]} for i in range(n)]:
+                for jobs in (1, 2):
+                    case = {"g": g, "kinds": ["exp"] * n, "pars": [jobs > 1] * n, "jobs": jobs, "fails": fails, "git": False, "unrelated": un}
+                    out.append({"kind": "outcome", "case": case, "bound": 1})
+    # an unrecorded leftover directory carrying exactly the id the clock hands out next (a run that failed a moment ago)
+    for g in rungrid.graphs_upto((1, 2)):
+        n = len(g)
+        for lo in range(n):
+            case = {"g": g, "kinds": ["exp"] * n, "pars": [False] * n, "jobs": 1, "fails": {}, "git": False, "leftover_at_clock": [lo]}
+            out.append({"kind": "outcome", "case": case})
     return out
 
 
